@@ -48,6 +48,11 @@ def build_pool(workdir):
     P["meas"] = Measurements([(0, 1), (1, 1), (0, 1), (1, 0)])
     P["dist1"] = MeasurementOutcomeDistribution({"00": 0.5, "01": 0.25, "11": 0.25})
     P["dist2"] = MeasurementOutcomeDistribution({(0, 0): 1, (1, 0): 3})
+    P["dist_unnorm"] = MeasurementOutcomeDistribution({(0, 0): 0.3, (1, 1): 0.3}, normalize=False)          # a legitimately unnormalised distribution object
+    P["dist_round"] = MeasurementOutcomeDistribution({(0, 0, 0): 1, (0, 1, 0): 6, (1, 1, 1): 15, (1, 0, 0): 0})    # sums to 1 only up to rounding; a zero-weight key
+    P["dist_params"] = {"epsilon": 1e-3, "sigma": 1.0}                                                       # one parameter dictionary shared by all distance calls
+    P["sub_qubits"] = [1, 0]
+    P["sub_qubits_neg"] = [-1, 0]
     P["dist_in_tuple"] = {(0, 0): 1, (1, 0): 3, (1, 1): 4}
     P["dist_in_str"] = {"00": 2, "01": 2, "10": 4}
     P["wf_num"] = Wavefunction(np.array([0.6, 0.8j, 0, 0]))
@@ -219,6 +224,13 @@ def menu():
         "meas.represent": lambda P: M.Measurements.get_measurements_representing_distribution(P["dist1"], 5),
         "meas.represent2": lambda P: M.Measurements.get_measurements_representing_distribution(P["dist2"], 3),
         # distributions
+        "meas.represent_unnorm": lambda P: M.Measurements.get_measurements_representing_distribution(P["dist_unnorm"], 4),
+        "meas.represent_round": lambda P: M.Measurements.get_measurements_representing_distribution(P["dist_round"], 7),
+        "dist.sub_listarg": lambda P: P["dist_round"].subdistribution(P["sub_qubits"]),
+        "dist.sub_negarg": lambda P: P["dist_round"].subdistribution(P["sub_qubits_neg"]),
+        "dist.nll_params": lambda P: D.compute_clipped_negative_log_likelihood(P["dist1"], P["dist2"], P["dist_params"]),
+        "dist.js_params": lambda P: D.compute_jensen_shannon_divergence(P["dist2"], P["dist1"], P["dist_params"]),
+        "dist.mmd_params": lambda P: D.compute_mmd(P["dist1"], P["dist2"], P["dist_params"]),
         "dist.ctor_tuple": lambda P: D.MeasurementOutcomeDistribution(P["dist_in_tuple"]),
         "dist.ctor_str": lambda P: D.MeasurementOutcomeDistribution(P["dist_in_str"]),
         "dist.ctor_nonorm": lambda P: D.MeasurementOutcomeDistribution(P["dist_in_tuple"], normalize=False),
